@@ -187,6 +187,11 @@ func (in *Interp) equals(T types.Type, x, y value) *Term {
 		return c.Bool(x == y)
 	case *SigObj:
 		return c.Bool(x == y)
+	case *ReflTypeObj:
+		if o, ok := y.(*ReflTypeObj); ok {
+			return c.Bool(types.Identical(a.t, o.t))
+		}
+		return c.ff
 	case *BigObj:
 		return c.Bool(x == y)
 	case nil:
